@@ -267,7 +267,7 @@ func pedersenFaultBody[E algebra.PrimeGroupElement[E, S], S algebra.PrimeFieldEl
 			case err == nil:
 				x.Failf("pedersen/open/accepts-"+fieldOf(what), "%s: Open ACCEPTED after lone change %s", id, what)
 			default:
-				lt["reject"]++
+				lt["reject-"+fieldOf(what)]++
 			}
 		}
 		// crossCheck validates the shortcut rule against a full reference recomputation (algebraic changes only: cheap enough).
@@ -349,6 +349,23 @@ func pedersenFaultBody[E algebra.PrimeGroupElement[E, S], S algebra.PrimeFieldEl
 				r3 := c.scalarBig(W3.Value())
 				if !c.ref.eq(c.affine(C3.Value()), c.refPedersen(g, h, m, r3)) || key.Open(C3, M, W3) != nil {
 					x.Failf("pedersen/Commit/value", "%s: commitments.Commit output does not open / differs from m·g + r·h for its witness %s", id, short(r3))
+				}
+			}
+		}
+		// generic ReRandomise wrapper: returns the new commitment and the SHIFT; the opening is WitnessOp(w, shift)
+		if wi == len(wits)-1 {
+			C4, shift, err := commitments.ReRandomise(key, C, newStream(id+"/ReRandomise"))
+			x.Case(id + "/ReRandomise")
+			if err != nil {
+				x.Failf("pedersen/ReRandomise/err", "%s: commitments.ReRandomise failed: %v", id, err)
+			} else {
+				r4 := new(big.Int).Add(r, c.scalarBig(shift.Value()))
+				W4, err := key.WitnessOp(W, shift)
+				if err != nil || !c.ref.eq(c.affine(C4.Value()), c.refPedersen(g, h, m, r4)) || key.Open(C4, M, W4) != nil {
+					x.Failf("pedersen/ReRandomise/value", "%s: re-randomised commitment does not open to (m, w+shift) (err=%v)", id, err)
+				}
+				if key.Open(C4, M, W) == nil && shift.Value().IsZero() == false {
+					x.Failf("pedersen/ReRandomise/unchanged", "%s: re-randomised commitment still opens with the old witness", id)
 				}
 			}
 		}
